@@ -48,7 +48,7 @@ fn structured64() -> Vec<u64> {
 }
 
 pub fn run(rep: &mut Report) {
-    rep.rule = "32-bit pair: every x in 0..2^32, both compositions (exhaustive). 64-bit pair: structured words (0, ~0, all 1/2/3-bit patterns and complements, 2^k±{0,1,2}, masks, byte-replicated words, carry chains at each shift amount) plus N random words, both compositions; a case is non-trivial when distinct (structured words deduplicated, random words counted as drawn: collisions among < 2^37 draws from 2^64 are negligible, 32-bit space enumerated once)".into();
+    rep.rule = "32-bit pair: every x in 0..2^32, both compositions (exhaustive). 64-bit pair: every value of every 16/20(/24)-bit window at every offset over random backgrounds; structured words (0, ~0, all 1/2/3-bit patterns and complements, 2^k±{0,1,2}, masks, byte-replicated words, carry chains at each shift amount) plus N random words, both compositions; a case is non-trivial when distinct (structured words deduplicated, random words counted as drawn: collisions among < 2^37 draws from 2^64 are negligible, 32-bit space enumerated once)".into();
     // ---- 32 bit, exhaustive
     if rep.want("h32") {
         let nblocks = 1u64 << 12;
@@ -103,6 +103,42 @@ pub fn run(rep: &mut Report) {
         rep.evaluations += st.len() as u64;
         rep.count("h64.structured_values", st.len() as u64);
         rep.sample(json!({"pair": "64", "x": format!("{:#x}", st[st.len() / 2]), "hash": format!("{:#x}", int64_hash(st[st.len() / 2]))}));
+    }
+    // ---- 64 bit: every value of every w-bit window at every bit offset, over random backgrounds
+    // (a defect conditioned on a contiguous field of the input of up to w bits is hit with certainty)
+    if rep.want("h64w") {
+        let seed = subseed(rep.seed, "C19/h64w", &[]);
+        let plans: Vec<(u32, u64)> = rep.tier.pick(vec![(16, 8), (20, 2)], vec![(16, 64), (20, 16), (24, 2)]);
+        let mut total = 0u64;
+        for (w, nbg) in plans {
+            let jobs: Vec<(u32, u64)> = (0..=(64 - w)).flat_map(|off| (0..nbg).map(move |b| (off, b))).collect();
+            let bad: Vec<(u64, u64, u64)> = jobs
+                .par_iter()
+                .flat_map_iter(|&(off, b)| {
+                    let mut rng = rng_from(mix(&[seed, w as u64, off as u64, b]));
+                    let bg = rng.next_u64();
+                    let mask = (((1u128 << w) - 1) as u64) << off;
+                    let mut out = Vec::new();
+                    for f in 0..(1u64 << w) {
+                        let x = (bg & !mask) | (f << off);
+                        let a = int64_hash_inverse(int64_hash(x));
+                        let c = int64_hash(int64_hash_inverse(x));
+                        if (a != x || c != x) && out.len() < 2 {
+                            out.push((x, a, c));
+                        }
+                    }
+                    out
+                })
+                .collect();
+            let n = jobs.len() as u64 * (1u64 << w);
+            total += n;
+            rep.count(&format!("h64.window_{}bit_values", w), n);
+            for (x, a, c) in bad.iter().take(3) {
+                rep.violation("C19/h64", "h64w", format!("int64: x={:#x} inverse(hash(x))={:#x} hash(inverse(x))={:#x} (found by the {}-bit window enumeration)", x, a, c, w), json!({"x": x}));
+            }
+        }
+        rep.evaluations += total;
+        rep.extra.insert("h64_window_enumeration".into(), json!("every value of every contiguous w-bit field at every offset, over random backgrounds: exhaustive over (offset, field value) for the listed widths"));
     }
     // ---- 64 bit random
     if rep.want("h64r") {
